@@ -604,15 +604,22 @@ def finding_witness_outcome(w):
     tree = tree_from_json(w["tree"]) if "tree" in w else \
         T.from_parse_tree(next(EarleyParser(g).parse(w["input"])))
     formula = w["formula"]
+    if w.get("build") == "rebound_name":
+        # API-built (parse_isla cannot produce it): two DIFFERENT variables a:<assgn>, a:<var> with one
+        # name; forall <assgn> a in start: exists <var> a in a: (= a "x")
+        a1, a2 = L.BoundVariable("a", "<assgn>"), L.BoundVariable("a", "<var>")
+        formula = L.ForallFormula(a1, START, L.ExistsFormula(
+            a2, a1, L.SMTFormula(z3_eq(a2.to_smt(), z3.StringVal("x")), a2)))
     ev = impl_evaluate(formula, tree, g)
     try:
         solver = ISLaSolver(g, formula)
         ck = impl_check(solver, tree)
     except Exception as e:
         ck = ("raise", lib.exn_name(e))
-    pf = None
+    pf = formula if isinstance(formula, L.Formula) else None
     try:
-        pf = L.parse_isla(formula, g, STANDARD_STRUCTURAL_PREDICATES, STANDARD_SEMANTIC_PREDICATES)
+        if pf is None:
+            pf = L.parse_isla(formula, g, STANDARD_STRUCTURAL_PREDICATES, STANDARD_SEMANTIC_PREDICATES)
     except Exception:
         pass
     sp = ("ok", w["spec"]) if "spec" in w else spec_verdict(pf, tree, g)
@@ -987,16 +994,20 @@ def run(run):
     # guard, theorem + correspondence predict a definite verdict equal to the specification's and no
     # exception from either entry point)
     try:
-        ehold, edt = lib.coq_run_shards("c03e", EGUARD_IMPORTS, EGUARD_DEF, shards)
-        n_all = sum(len(ms) for ms in smeta)
-        einside = [smeta[k][i] for (k, i) in ehold]
+        # quick tier: every second shard (type-checking the case literals again dominates the cost)
+        step = 1 if thorough else 2
+        eshards, emeta = shards[::step], smeta[::step]
+        ehold, edt = lib.coq_run_shards("c03e", EGUARD_IMPORTS, EGUARD_DEF, eshards)
+        n_all = sum(len(ms) for ms in emeta)
+        einside = [emeta[k][i] for (k, i) in ehold]
         by_g = {}
-        for ms in smeta:
+        for ms in emeta:
             for m in ms:
                 by_g.setdefault(m["grammar"], [0, 0])[0] += 1
         for m in einside:
             by_g[m["grammar"]][1] += 1
-        run.cov["evaluate_theorem_guard"] = {"cases": n_all, "guard_holds": len(einside),
+        run.cov["evaluate_theorem_guard"] = {"cases": n_all, "of_first_strategy_cases": sum(len(ms) for ms in smeta),
+                                             "guard_holds": len(einside),
                                              "with_match_expression_inside": sum(1 for m in einside if m.get("mexpr")),
                                              "per_grammar_cases_inside": by_g, "coq_seconds": round(edt, 1)}
         print(f"[C03] first-strategy cases={n_all} inside the guard of C03_evaluate_correct_atoms={len(einside)}",
